@@ -22,6 +22,8 @@ func main() {
 		{Name: "bh-plane", Gen: genBH(2)},
 		{Name: "bh-volume", Gen: genBH(3)},
 		{Name: "bh-struct", Gen: genBHStruct},
+		{Name: "bh-reuse-plane", Gen: genBHReuse(2)},
+		{Name: "bh-reuse-volume", Gen: genBHReuse(3)},
 	}
 	for d := 1; d <= 3; d++ {
 		groups = append(groups,
